@@ -2484,8 +2484,9 @@ def bindings(bindings: Mapping[Var, Any] | None = None):
     logger.debug(
         f"Binding thread-local values for Vars: {', '.join(map(str, m.keys()))}"
     )
+    # A failed push leaves no frame behind, so there would be nothing of ours to pop
+    push_thread_bindings(m)
     try:
-        push_thread_bindings(m)
         yield
     finally:
         pop_thread_bindings()
